@@ -190,7 +190,7 @@ def main():
         chk.violation("model-build", "Coq model does not compile: " + log[-1500:], {"kind": "model-build", "log": log[-4000:]}, found=False)
         return chk.finish()
     root = vlib.scratch("C03-")
-    ncase = {"none": 30, "gzip": 30, "bzip2": 24, "lzma": 24, "text": 30, "sie": 150}
+    ncase = {"none": 60, "gzip": 80, "bzip2": 60, "lzma": 60, "text": 60, "sie": 600}
     if chk.thorough:
         ncase = {k: v * 12 for k, v in ncase.items()}
     cases, script, mlines = [], [], []
